@@ -463,7 +463,7 @@ func C01(run *mon.Run) {
 			run.Violate("C01:hash-point:shaped", err.Error(), nil)
 		} else {
 			for i, k := range shaped {
-				if run.Quick() && i%3 != int(run.Seed%3+3)%3 && !(k.BitLen() >= 126 && k.BitLen() <= 138) {
+				if run.Quick() && i%3 != int(run.Seed%3+3)%3 && !(k.BitLen() >= 126 && k.BitLen() <= 138) && i < len(shaped)-shapedAlways {
 					continue
 				}
 				wg.Add(1)
